@@ -26,11 +26,16 @@ META = {
              "follows them, and that no two encodings coincide or prefix one another. JSON reading is modelled too (JsonModel.v: "
              "grammar, integer/float classification, exact correctly rounded decimal->binary64, strings with every escape form) "
              "and diffed against the implementation byte for byte through JSON->MessagePack on number/string spellings, rounding "
-             "halfway cases, subnormals and the overflow threshold (no theorem is claimed about the conversion itself). serde_json's "
-             "compact WRITER is modelled as well (JsonWriteModel.v: shortest decimal integers, the escape table, no whitespace; "
-             "diffed against xt's JSON->JSON output on float-free inputs) and it is proved that the reader reads back exactly the "
-             "events of the value written, for values of any size below the recursion limit, whatever follows (floats under an "
-             "explicit premise on ryu's spelling). What the third-party codecs then make of those calls is checked on the "
+             "halfway cases, subnormals and the overflow threshold; the conversion is PROVED correctly rounded "
+             "(C01_json_decimal_correctly_rounded: the significand is the integer nearest to the decimal at the normalised scale, "
+             "ties to even). serde_json's compact WRITER is modelled as well (JsonWriteModel.v: shortest decimal integers, the escape "
+             "table, no whitespace; JsonFloatModel.v: serialize_f64 / ryu's format64 - null for non-finite values, the shortest digits "
+             "that read back, nearest, ties to even, ryu's five layouts; diffed against xt's JSON->JSON and MessagePack->JSON output, "
+             "floats included, and value by value over boundary tables and random bit patterns) and it is proved that the reader "
+             "reads back exactly the events of the value written, for values of any size below the recursion limit, whatever "
+             "follows, floats included: EVERY finite binary64 is spelled (the search for the shortest digits never fails) and is read "
+             "back to the identical 64 bits (C01_json_float_spelling_reads_back, C01_float_spelling_exists_for_every_finite_value, "
+             "C01_json_reads_what_was_written_with_floats; no premise). What the third-party codecs then make of those calls is checked on the "
              "implementation: generated documents of the common model and each pair's extensions, several spellings per value "
              "(escape forms, quoting and block styles, whitespace, exponent forms, non-minimal MessagePack widths), all 16 format "
              "pairs, slice and reader, explicit and detected source, output read back with an independent reader (Python json, "
@@ -46,6 +51,10 @@ META = {
         "third-party codecs observed with independent readers (tools/gen.py: Python json, tomllib, PyYAML + YAML 1.2 core schema "
         "resolver, hand-written MessagePack reader) over generated documents",
         "extraction (ExtrOcamlBasic only), model_driver/driver.ml, harness/src/transcode.rs, session.rs, tools/*.py",
+        "hand-written Gallina model JsonFloatModel.v of serde_json's serialize_f64 and ryu 1.0's pretty::format64 (an executable "
+        "specification in exact integer arithmetic, not ryu's table-driven algorithm), tied to the code by the float-spelling (RY) and the "
+        "JSON->JSON / MessagePack->JSON (JW, MJ) correspondences; F64Proofs.v / JsonFloatTotalProofs.v prove about the MODEL that the reader's "
+        "conversion is correctly rounded and that every finite binary64 has a spelling that reads back",
     ],
     "assumptions": ["nesting depth up to 64, as the property states"],
     "explanation": "xt's own forwarding is proved for all documents; codec behaviour is third-party and observed",
